@@ -239,11 +239,15 @@ def t_channels():
 			for sel in (itertools.permutations(labs, m) if m != 'x' else extra_sels):
 				if m == 4 and sel[0] != 'g1':
 					continue
-				for channel in ('positional', 'list'):
+				for channel in ('positional', 'list', 'positional-symlinks'):
+					if channel == 'positional-symlinks' and (m == 'x' or m == 4):
+						continue
 					for kp in ('DEF', 'P0'):
 						args = ['tree', '--no-progress'] + (['-k', '6', '-p', 'AT'] if kp == 'P0' else [])
 						if channel == 'positional':
 							args += [allq[l] for l in sel]
+						elif channel == 'positional-symlinks':
+							args += [fx.qlink[l] for l in sel]
 						else:
 							lf = clifix.write_listfile(os.path.join(d, 'l.txt'), [allfiles[l] for l in sel])
 							args += ['-l', lf, '--ldir', os.path.join(fx.d, 'q')]
@@ -254,7 +258,8 @@ def t_channels():
 							sh.violation('tree-failed', case, 'exit 0', dict(exit=code, exc=repr(exc), out=stdout[-300:]))
 							continue
 						arrs = [clifix.lib_signature(kp, allsegs[l]) for l in sel]
-						if check_tree(sh, stdout, list(sel), arrs, case):
+						leaf = [R.ref_label(fx.qlink[l]) for l in sel] if channel == 'positional-symlinks' else list(sel)
+						if check_tree(sh, stdout, leaf, arrs, case):
 							sh.count('file_channel_trees')
 	sh.sample(dict(family='channels', labels=list(sel), newick=stdout.strip()[:300]))
 	return sh
